@@ -1,35 +1,27 @@
 (* C15 -- Angles are in their documented ranges and agree with sun and scan geometry.
    Statements only; proofs in Proofs/P_C15.v (over the reals).  Model: Model/M_Angles.v; astronomy and orbit are oracles;
-   Gen_Angles ties the assembly (which function receives which arguments, conversions, order of the results) to the source. *)
+   Gen_Angles ties the assembly (which function receives which arguments, conversions, order of the results) to the
+   source by tracing get_angles on probes. *)
 From Coq Require Import String List Reals ZArith QArith Qreals Lra.
 From PV Require Import M_Angles P_C15 P_C15_Q Gen_Angles.
 Import ListNotations.
 Open Scope R_scope.
 
-(* the assembly of get_angles as the source has it (the two folding functions themselves are tied to the model by the
-   correspondence check_fold on the executable mirror, not by their text) *)
+(* the assembly of get_angles, obtained by TRACING it on a stub reader with recording stand-ins for the astronomy and orbit
+   functions (Gen_Angles, regenerated every run): the sun functions receive (time as a column, lon, lat); the five results
+   come back in the documented order and are, on the probe, the model's values (folded azimuths, 90 - elevation, folded
+   rad2deg of the sun azimuth, the relative azimuth of the unfolded azimuths); flagged lines are NaN; with a TLE the look
+   angles are taken from (time, lon, lat, altitude 0), without usable TLE data (NoTLEData only) from the fallback that puts
+   the satellite 850 km above the middle column *)
 Theorem C15_source_shape :
-  ang_get_angles_calls = ["self.get_times()"; "self.get_lonlat()"]%string /\
-  ang_get_angles_times = ["self._times_as_np_datetime64"]%string /\
-  (* sun: zenith in degrees from (time, lon, lat); azimuth in radians from the same arguments, converted to degrees *)
-  ang_get_angles_sun_zenith = ["astronomy.sun_zenith_angle(times[:, np.newaxis], self.lons, self.lats)"]%string /\
-  ang_get_angles_alt__sun_azi = ["astronomy.get_alt_az(times[:, np.newaxis], self.lons, self.lats)"]%string /\
-  ang_get_angles_sun_azi = ["np.rad2deg(sun_azi)"; "centered_modulus(sun_azi, 360.0)"]%string /\
-  (* satellite: (azimuth, elevation); zenith is the complement of the elevation; azimuth folded *)
-  ang_get_angles_sat_azi__sat_elev = ["self.get_sat_angles()"]%string /\
-  ang_get_angles_sat_zenith = ["90 - sat_elev"]%string /\
-  ang_get_angles_sat_azi = ["centered_modulus(sat_azi, 360.0)"]%string /\
-  ang_get_angles_rel_azi = ["get_absolute_azimuth_angle_diff(sun_azi, sat_azi)"]%string /\
-  ang_get_angles_mask_loop = "(sat_azi, sat_zenith, sun_azi, sun_zenith, rel_azi) : arr[self.mask] = np.nan"%string /\
-  ang_get_angles_return = "(sat_azi, sat_zenith, sun_azi, sun_zenith, rel_azi)"%string /\
-  (* with TLE: observer look from (time, lon, lat, altitude 0); without usable TLE data: the approximate fallback *)
-  ang_sat_angles_try = "return self._get_sat_angles_with_tle()"%string /\ ang_sat_angles_except = "NoTLEData"%string /\
-  ang_sat_angles_handler = "return self._get_sat_angles_without_tle()"%string /\
-  ang_with_tle_look_args = ["self._times_as_np_datetime64[:, np.newaxis]"; "self.lons"; "self.lats"; "0"]%string /\
-  ang_with_tle_return = "(sat_azi, sat_elev)"%string /\
-  ang_without_tle_look_args = ["self.lons[:, mid_column][:, np.newaxis]"; "self.lats[:, mid_column][:, np.newaxis]"; "sat_alt";
-                               "self._times_as_np_datetime64[:, np.newaxis]"; "self.lons"; "self.lats"; "0"]%string /\
-  ang_without_tle_mid_column = "int(0.5 * self.lons.shape[1])"%string.
+  ang_sun_zenith_args = ["times_column"; "lons"; "lats"]%string /\
+  ang_get_alt_az_args = ["times_column"; "lons"; "lats"]%string /\
+  ang_coordinates_first = true /\
+  ang_return_order = ["sat_azi"; "sat_zenith"; "sun_azi"; "sun_zenith"; "rel_azi"]%string /\
+  ang_flagged_rows_nan = true /\
+  ang_with_tle_look_args = ["times_column"; "lons"; "lats"; "0.0"]%string /\ ang_with_tle_returns_azi_elev = true /\
+  ang_without_tle_look_args = ["lons_mid_column"; "lats_mid_column"; "850.0"; "times_column"; "lons"; "lats"; "0.0"]%string /\
+  ang_fallback_on_notledata = true /\ ang_other_errors_propagate = true /\ ang_tle_result_used = true.
 Proof. repeat (apply conj); vm_compute; reflexivity. Qed.
 Print Assumptions C15_source_shape.
 
